@@ -1,5 +1,6 @@
 import JSL.Inv.EnvReach
 import JSL.Props.Example
+import JSL.Inv.TravelStoch
 
 /-!
 # C07 — transport takes the configured travel time and never moves an unready job
@@ -186,5 +187,14 @@ theorem c07_start_after_predecessor_plus_travel {ec : EnvCfg} {st : RewardStatic
 
 /-- non-vacuity: the example instance has a constant travel time between its machines -/
 example : travelCfg Ex.inst (.m 0) (.m 1) = some (.det 2) := by decide
+
+/-- the same for a **stochastic** travel entry: the gap is at least one of the object's samples
+`orc sid k`, `k ≥ 1` – the value drawn by the `update()` at pickup -/
+theorem c07_start_after_predecessor_plus_sampled_travel {ec : EnvCfg} {st : RewardStatic} {s0 σ : State}
+    (hst : Start orc inst s0) (h : Exposed orc inst ec st s0 σ) (j : JobState) (hj : j ∈ σ.jobs) (a b : OpState)
+    (l1 l2 : List OpState) (hadj : j.ops = l1 ++ a :: b :: l2) (ha : a.st = .done) (e : Int) (he : a.stop = some e)
+    (sid : Nat) (hd : travelCfg inst (.m a.machine) (.m b.machine) = some (.stoch sid)) (hb : b.st ≠ .idle) (x : Int)
+    (hx : b.start = some x) : ∃ k, 1 ≤ k ∧ e + orc sid k ≤ x :=
+  exposed_travelS hst h j hj a b ⟨l1, l2, hadj⟩ ha e he sid hd hb x hx
 
 end JSL
